@@ -131,6 +131,10 @@ structure Cfg where
   suppressInternalTaxa : Bool := true
   suppressLeafTaxa : Bool := false
   suppressLengths : Bool := false
+deriving Repr
+
+/-- settings of the block-level front ends (not seen by the tree-statement parser) -/
+structure Flags where
   /-- `exclude_chars`: CHARACTERS/DATA/SETS blocks are skipped, not parsed -/
   excludeChars : Bool := true
   /-- `attached_taxon_namespace is not None` -/
@@ -467,27 +471,38 @@ structure Core where
   ntax : Option Nat := none
 deriving Inhabited
 
+/-- what the statement parsers see of the state: the token stream and the labels of the namespace -/
+structure Doc where
+  ts : TS
+  ns : List String
+deriving Inhabited
+
+def Core.doc (c : Core) : Doc := { ts := c.ts, ns := c.ns }
+def Core.withDoc (c : Core) (d : Doc) : Core := { c with ts := d.ts, ns := d.ns }
+
 def parseDigits (s : String) : Option Nat :=
   if !s.isEmpty && s.all Char.isDigit then s.toNat? else none
 
 /-- `_new_taxon_namespace` -/
-def newNamespace (cfg : Cfg) (c : Core) (title : Option String) : Core :=
-  if cfg.attached then c
+def newNamespace (fl : Flags) (c : Core) (title : Option String) : Core :=
+  if fl.attached then c
   else { c with nsCount := c.nsCount + 1, nsLabel := match c.nsLabel with | some l => some l | none => title }
 
+/-- how many registered namespaces carry the title (case-insensitively) -/
+def nsFound (c : Core) (t : String) : Nat :=
+  match c.nsLabel with
+  | some l => if l.toUpper == t.toUpper then c.nsCount else 0
+  | none => 0
+
 /-- `_get_taxon_namespace`: ok / LinkRequired, UndefinedBlock, MultipleBlockWithSameTitle -/
-def getNamespace (cfg : Cfg) (c : Core) (title : Option String) : Except Err Core :=
-  if cfg.attached then .ok c
+def getNamespace (fl : Flags) (c : Core) (title : Option String) : Except Err Core :=
+  if fl.attached then .ok c
   else match title with
     | none =>
-      if c.nsCount == 0 then .ok (newNamespace cfg c none)
+      if c.nsCount == 0 then .ok (newNamespace fl c none)
       else if c.nsCount == 1 then .ok c
       else .error .parse
-    | some t =>
-      let found := match c.nsLabel with
-        | some l => if l.toUpper == t.toUpper then c.nsCount else 0
-        | none => 0
-      if found == 1 then .ok c else .error .parse
+    | some t => if nsFound c t == 1 then .ok c else .error .parse
 
 /-- `_parse_title_statement` (current token is TITLE) -/
 def parseTitle (ts : TS) : Except Err (String × TS) :=
@@ -552,7 +567,7 @@ def parseDimensions (ts : TS) : Except Err (Option Nat × TS) :=
   if ts.rest = [] then .error .parse else dimLoop ts.nextU none
 
 /-- `_parse_taxlabels_statement`: `tok` is the loop variable -/
-def taxlabelsLoop (cfg : Cfg) (ts : TS) (ns : List String) (ntax : Option Nat) : Except Err (List String × TS) :=
+def taxlabelsLoop (attached : Bool) (ts : TS) (ns : List String) (ntax : Option Nat) : Except Err (List String × TS) :=
   match ts.cur with
   | none => .error .parse
   | some label =>
@@ -560,58 +575,69 @@ def taxlabelsLoop (cfg : Cfg) (ts : TS) (ns : List String) (ntax : Option Nat) :
     else if h : ts.rest = [] then .error .parse
     else
       match nsFind label ns with
-      | some _ => taxlabelsLoop cfg ts.next.clear ns ntax
+      | some _ => taxlabelsLoop attached ts.next.clear ns ntax
       | none =>
         let limited := match ntax with
           | none => false             -- without a declared NTAX the number of labels is not limited
-          | some n => decide (ns.length ≥ n) && !cfg.attached
+          | some n => decide (ns.length ≥ n) && !attached
         if limited then .error .parse
-        else taxlabelsLoop cfg ts.next.clear (ns ++ [label]) ntax
+        else taxlabelsLoop attached ts.next.clear (ns ++ [label]) ntax
 termination_by ts.rest.length
 decreasing_by
   all_goals simp [TS.clear]; exact TS.next_lt ts h
 
-/-- `_parse_taxa_block` (current token TAXA).  `token` of the code is threaded as `tok` -/
-def taxaLoop (cfg : Cfg) (c : Core) (haveNs : Bool) : Except Err Core :=
-  if h : c.ts.rest = [] then .error .parse   -- end of stream inside the block (the code would spin)
-  else
-    let ts1 := c.ts.nextU
-    -- TITLE
-    let r1 : Except Err (Core × Bool × Option String) :=
-      if ts1.cur == some "TITLE" then
-        match parseTitle ts1 with
-        | .error e => .error e
-        | .ok (title, ts2) => .ok (newNamespace cfg { c with ts := ts2 } (some title), true, some title)
-      else .ok ({ c with ts := ts1 }, haveNs, ts1.cur)
-    match r1 with
+/-- the TITLE branch of one turn of the `_parse_taxa_block` loop; result: state, "a namespace exists", the loop's `token` -/
+def taxaTitle (fl : Flags) (c : Core) (haveNs : Bool) : Except Err (Core × Bool × Option String) :=
+  let ts1 := c.ts.nextU
+  if ts1.cur == some "TITLE" then
+    match parseTitle ts1 with
     | .error e => .error e
-    | .ok (c1, have1, tok1) =>
-      let r2 : Except Err Core :=
-        if tok1 == some "DIMENSIONS" then
-          match parseDimensions c1.ts with
-          | .error e => .error e
-          | .ok (n, ts3) => .ok { c1 with ts := ts3, ntax := match n with | some k => some k | none => c1.ntax }
-        else .ok c1
-      match r2 with
+    | .ok (title, ts2) => .ok (newNamespace fl { c with ts := ts2 } (some title), true, some title)
+  else .ok ({ c with ts := ts1 }, haveNs, ts1.cur)
+
+/-- the DIMENSIONS branch -/
+def taxaDims (c : Core) (tok : Option String) : Except Err Core :=
+  if tok == some "DIMENSIONS" then
+    match parseDimensions c.ts with
+    | .error e => .error e
+    | .ok (n, ts3) => .ok { c with ts := ts3, ntax := match n with | some k => some k | none => c.ntax }
+  else .ok c
+
+/-- the TAXLABELS branch -/
+def taxaLabels (fl : Flags) (c : Core) (haveNs : Bool) (tok : Option String) : Except Err (Core × Bool) :=
+  if tok == some "TAXLABELS" then
+    let c3 := if haveNs then c else newNamespace fl c none
+    match taxlabelsLoop fl.attached c3.ts.clear.next c3.ns c3.ntax with
+    | .error e => .error e
+    | .ok (ns, ts4) => .ok ({ c3 with ts := ts4, ns := ns }, true)
+  else .ok (c, haveNs)
+
+/-- one turn of the `_parse_taxa_block` loop: the three `if`s in sequence (the code's `token` is threaded) -/
+def taxaStep (fl : Flags) (c : Core) (haveNs : Bool) : Except Err (Core × Bool × Option String) :=
+  match taxaTitle fl c haveNs with
+  | .error e => .error e
+  | .ok (c1, have1, tok1) =>
+    match taxaDims c1 tok1 with
+    | .error e => .error e
+    | .ok c2 =>
+      match taxaLabels fl c2 have1 tok1 with
       | .error e => .error e
-      | .ok c2 =>
-        let r3 : Except Err (Core × Bool) :=
-          if tok1 == some "TAXLABELS" then
-            let c3 := if have1 then c2 else newNamespace cfg c2 none
-            match taxlabelsLoop cfg c3.ts.clear.next c3.ns c3.ntax with
-            | .error e => .error e
-            | .ok (ns, ts4) => .ok ({ c3 with ts := ts4, ns := ns }, true)
-          else .ok (c2, have1)
-        match r3 with
-        | .error e => .error e
-        | .ok (c4, have4) =>
-          if tok1 == some "END" || tok1 == some "ENDBLOCK" then .ok { c4 with ts := skipSemi c4.ts }
-          else if hp : c4.ts.rest.length < c.ts.rest.length then taxaLoop cfg c4 have4
-          else .error .stuck
+      | .ok (c4, have4) => .ok (c4, have4, tok1)
+
+/-- `_parse_taxa_block` (current token TAXA) -/
+def taxaLoop (fl : Flags) (c : Core) (haveNs : Bool) : Except Err Core :=
+  if h : c.ts.rest = [] then .error .parse   -- end of stream inside the block
+  else
+    match taxaStep fl c haveNs with
+    | .error e => .error e
+    | .ok (c4, have4, tok1) =>
+      if tok1 == some "END" || tok1 == some "ENDBLOCK" then .ok { c4 with ts := skipSemi c4.ts }
+      else if hp : c4.ts.rest.length < c.ts.rest.length then taxaLoop fl c4 have4
+      else .error .stuck
 termination_by c.ts.rest.length
 
-def parseTaxaBlock (cfg : Cfg) (c : Core) : Except Err Core :=
-  taxaLoop cfg { c with ts := skipSemi c.ts } false
+def parseTaxaBlock (fl : Flags) (c : Core) : Except Err Core :=
+  taxaLoop fl { c with ts := skipSemi c.ts } false
 
 /-- the `while` loop of `_consume_to_end_of_block`; `tok` is its local variable `token` -/
 def consumeLoop (ts : TS) (tok : Option String) : TS :=
@@ -626,12 +652,18 @@ termination_by ts.rest.length
 def consumeToEndOfBlock (ts : TS) (token : Option String) : TS :=
   consumeLoop ts (some (match token with | some t => if t.isEmpty then "DUMMY" else t.toUpper | none => "DUMMY"))
 
+/-- the block's symbol mapper if there is one already, else a fresh one over the namespace (`_get_taxon_symbol_mapper`) -/
+def mapperOr (m : Option Mapper) (ns : List String) : Mapper :=
+  match m with
+  | some m => m
+  | none => Mapper.new ns true
+
 /-- `TaxonNamespace.require_taxon(label=…)` as used by TRANSLATE: the namespace is locked by the mapper
     unless no NTAX was seen (`is_mutable = True` override) -/
-def translateLoop (c : Core) (mp : Mapper) : Except Err (Core × Mapper) :=
-  if c.ts.rest.length < 2 then .error .parse      -- `require_next_token` for the token or its label fails
+def translateLoop (d : Doc) (ntax : Option Nat) (mp : Mapper) : Except Err (Doc × Mapper) :=
+  if d.ts.rest.length < 2 then .error .parse      -- `require_next_token` for the token or its label fails
   else
-  let ts1 := c.ts.next
+  let ts1 := d.ts.next
   match ts1.cur with
   | none => .error .parse
   | some ttok =>
@@ -642,33 +674,34 @@ def translateLoop (c : Core) (mp : Mapper) : Except Err (Core × Mapper) :=
       | none => .error .parse
       | some lab =>
         let r : Except Err (Nat × List String) :=
-          match nsFind lab c.ns with
-          | some t => .ok (t, c.ns)
-          | none => if c.ntax.isNone then .ok (c.ns.length, c.ns ++ [lab]) else .error .parse
+          match nsFind lab d.ns with
+          | some t => .ok (t, d.ns)
+          | none => if ntax.isNone then .ok (d.ns.length, d.ns ++ [lab]) else .error .parse
         match r with
         | .error e => .error e
         | .ok (t, ns) =>
           let mp1 := { mp with tokens := (ttok.toLower, t) :: mp.tokens }
           let ts3 := ts2.next
-          let c1 := { c with ts := ts3, ns := ns }
+          let d1 : Doc := { ts := ts3, ns := ns }
           match ts3.cur with
-          | none => .ok (c1, mp1)
+          | none => .ok (d1, mp1)
           | some sep =>
-            if sep.isEmpty || sep == ";" then .ok (c1, mp1)
+            if sep.isEmpty || sep == ";" then .ok (d1, mp1)
             else if sep != "," then .error .parse
-            else if h : ts3.rest.length < c.ts.rest.length then translateLoop c1 mp1
+            else if h : ts3.rest.length < d.ts.rest.length then translateLoop d1 ntax mp1
             else .error .stuck
-termination_by c.ts.rest.length
+termination_by d.ts.rest.length
 
 /-- `_parse_translate_statement(taxon_namespace, taxon_symbol_mapper)`: the TREES block's mapper is reused when it
     exists (a second TRANSLATE, or a TRANSLATE after a TREE, adds to the tokens already known); both front ends call
     it this way (the yielder after `fixes/C13-yielder-translate-mapper.patch`) -/
 def parseTranslate (c : Core) (mp : Option Mapper) : Except Err (Core × Mapper) :=
-  translateLoop c (match mp with | some m => m | none => Mapper.new c.ns true)
+  (translateLoop c.doc c.ntax (mapperOr mp c.ns)).map
+    fun r => (c.withDoc r.1, r.2)
 
 /-- `NexusReader._parse_tree_statement` (positioned right after TREE) -/
-def nexusTreeStmt (cfg : Cfg) (c : Core) (mp : Mapper) : Except Err (Tree × Core × Mapper) :=
-  let ts1 := c.ts.next
+def nexusTreeStmt (cfg : Cfg) (d : Doc) (mp : Mapper) : Except Err (Tree × Doc × Mapper) :=
+  let ts1 := d.ts.next
   let ts2 := if ts1.cur == some "*" then ts1.next else ts1
   let name := ts2.cur
   let ts3 := ts2.next
@@ -677,28 +710,28 @@ def nexusTreeStmt (cfg : Cfg) (c : Core) (mp : Mapper) : Except Err (Tree × Cor
   if ts3.cur != some "=" then .error .parse
   else
     let ts5 := ts4.next
-    match newickStmt cfg ts5 c.ns mp with
+    match newickStmt cfg ts5 d.ns mp with
     | .error e => .error e
     | .ok (none, _, _, _) => .error .parse
     | .ok (some t, ts6, ns, mp') =>
-      .ok ({ t with name := name, coms := t.coms ++ pre }, { c with ts := ts6, ns := ns }, mp')
+      .ok ({ t with name := name, coms := t.coms ++ pre }, { ts := ts6, ns := ns }, mp')
 
 /-! ### NEXUS reader front end (`NexusReader`) -/
 
 /-- the inner `while True` over consecutive TREE statements of `_parse_trees_block`.
     result: state, sink, and the value left in the block loop's `token` variable -/
-def treeRunR {σ} (cfg : Cfg) (S : Sink σ) (c : Core) (mp : Mapper) (acc : σ) : Except Err (Core × Mapper × σ × Option String) :=
-  match nexusTreeStmt cfg c mp with
+def treeRunR {σ} (cfg : Cfg) (S : Sink σ) (d : Doc) (mp : Mapper) (acc : σ) : Except Err (Doc × Mapper × σ × Option String) :=
+  match nexusTreeStmt cfg d mp with
   | .error e => .error e
-  | .ok (t, c1, mp1) =>
+  | .ok (t, d1, mp1) =>
     let acc1 := S.addTree acc t
-    if c1.ts.eof || c1.ts.cur == none || c1.ts.cur == some "" then .ok (c1, mp1, acc1, some "TREE")
+    if d1.ts.eof || d1.ts.cur == none || d1.ts.cur == some "" then .ok (d1, mp1, acc1, some "TREE")
     else
-      let c2 := { c1 with ts := c1.ts.castU }
-      if c2.ts.cur != some "TREE" then .ok (c2, mp1, acc1, c2.ts.cur)
-      else if h : c2.ts.rest.length < c.ts.rest.length then treeRunR cfg S c2 mp1 acc1
+      let d2 : Doc := { d1 with ts := d1.ts.castU }
+      if d2.ts.cur != some "TREE" then .ok (d2, mp1, acc1, d2.ts.cur)
+      else if h : d2.ts.rest.length < d.ts.rest.length then treeRunR cfg S d2 mp1 acc1
       else .error .stuck
-termination_by c.ts.rest.length
+termination_by d.ts.rest.length
 
 structure BlockVars where
   link : Option String := none
@@ -709,7 +742,7 @@ structure BlockVars where
 deriving Inhabited
 
 /-- one turn of the `while` loop of `NexusReader._parse_trees_block`: read a token and dispatch on it -/
-def treesStepR {σ} (cfg : Cfg) (S : Sink σ) (c : Core) (v : BlockVars) (acc : σ) : Except Err (Core × BlockVars × σ) :=
+def treesStepR {σ} (cfg : Cfg) (fl : Flags) (S : Sink σ) (c : Core) (v : BlockVars) (acc : σ) : Except Err (Core × BlockVars × σ) :=
   let ts1 := c.ts.nextU
   let c1 := { c with ts := ts1 }
   if ts1.cur == some "LINK" then
@@ -721,43 +754,43 @@ def treesStepR {σ} (cfg : Cfg) (S : Sink σ) (c : Core) (v : BlockVars) (acc : 
     | .error e => .error e
     | .ok (_, ts2) => .ok ({ c1 with ts := ts2 }, { v with tok := some "" }, acc)
   else if ts1.cur == some "TRANSLATE" then
-    match (if v.haveNs then .ok c1 else getNamespace cfg c1 v.link) with
+    match (if v.haveNs then .ok c1 else getNamespace fl c1 v.link) with
     | .error e => .error e
     | .ok c2 =>
       match parseTranslate c2 v.mapper with
       | .error e => .error e
       | .ok (c3, mp) => .ok (c3, { v with haveNs := true, mapper := some mp, tok := some "" }, acc)
   else if ts1.cur == some "TREE" then
-    match (if v.haveNs then .ok c1 else getNamespace cfg c1 v.link) with
+    match (if v.haveNs then .ok c1 else getNamespace fl c1 v.link) with
     | .error e => .error e
     | .ok c2 =>
-      let mp := match v.mapper with | some m => m | none => Mapper.new c2.ns true
-      let c3 := { c2 with ts := c2.ts.clear }     -- pre-tree comments go to the tree list, not to a tree
+      let mp := mapperOr v.mapper c2.ns
       let acc1 := if v.haveList then acc else S.newList acc
-      match treeRunR cfg S c3 mp acc1 with
+      -- (`.clear`: pre-tree comments go to the tree list, not to a tree)
+      match treeRunR cfg S { ts := c2.ts.clear, ns := c2.ns } mp acc1 with
       | .error e => .error e
-      | .ok (c4, mp4, acc4, tok) => .ok (c4, { v with haveNs := true, mapper := some mp4, haveList := true, tok := tok }, acc4)
+      | .ok (d4, mp4, acc4, tok) => .ok (c2.withDoc d4, { v with haveNs := true, mapper := some mp4, haveList := true, tok := tok }, acc4)
   else if ts1.cur == some "BEGIN" then .error .parse
   else .ok (c1, { v with tok := ts1.cur }, acc)
 
 /-- the `while` loop of `NexusReader._parse_trees_block` -/
-def treesLoopR {σ} (cfg : Cfg) (S : Sink σ) (c : Core) (v : BlockVars) (acc : σ) : Except Err (Core × σ) :=
+def treesLoopR {σ} (cfg : Cfg) (fl : Flags) (S : Sink σ) (c : Core) (v : BlockVars) (acc : σ) : Except Err (Core × σ) :=
   if c.ts.eof || v.tok == none || v.tok == some "END" || v.tok == some "ENDBLOCK" then
     .ok ({ c with ts := skipSemi c.ts }, acc)
   else
-    match treesStepR cfg S c v acc with
+    match treesStepR cfg fl S c v acc with
     | .error e => .error e
     | .ok (c5, v5, acc5) =>
-      if h : c5.ts.rest.length < c.ts.rest.length then treesLoopR cfg S c5 v5 acc5
+      if h : c5.ts.rest.length < c.ts.rest.length then treesLoopR cfg fl S c5 v5 acc5
       else if c5.ts.eof then .ok ({ c5 with ts := skipSemi c5.ts }, acc5)
       else .error .stuck
 termination_by c.ts.rest.length
 
 /-- `NexusReader._parse_trees_block` -/
-def treesBlockR {σ} (cfg : Cfg) (S : Sink σ) (c : Core) (acc : σ) : Except Err (Core × σ) :=
+def treesBlockR {σ} (cfg : Cfg) (fl : Flags) (S : Sink σ) (c : Core) (acc : σ) : Except Err (Core × σ) :=
   let ts0 := c.ts.castU
   if ts0.cur != some "TREES" then .error .parse
-  else treesLoopR cfg S { c with ts := skipSemi ts0 } { tok := some "TREES" } acc
+  else treesLoopR cfg fl S { c with ts := skipSemi ts0 } { tok := some "TREES" } acc
 
 /-- the inner `while token != None and token != 'BEGIN' and not eof` of the stream loop -/
 def seekBegin (ts : TS) : TS :=
@@ -774,54 +807,54 @@ def parsedBlockSkeleton (ts : TS) : TS := skipSemi (consumeToEndOfBlock ts ts.cu
 def isSetsKw (t : Option String) : Bool := t == some "SETS" || t == some "ASSUMPTIONS" || t == some "CODONS"
 
 /-- one turn of the `while not eof` loop of `NexusReader._parse_nexus_stream`: find BEGIN, dispatch on the block name -/
-def streamStepR {σ} (cfg : Cfg) (S : Sink σ) (c : Core) (acc : σ) : Except Err (Core × σ) :=
+def streamStepR {σ} (cfg : Cfg) (fl : Flags) (S : Sink σ) (c : Core) (acc : σ) : Except Err (Core × σ) :=
   let ts2 := (seekBegin c.ts.nextU).clear.nextU
   let c2 := { c with ts := ts2 }
-  if ts2.cur == some "TAXA" then (parseTaxaBlock cfg c2).map (·, acc)
+  if ts2.cur == some "TAXA" then (parseTaxaBlock fl c2).map (·, acc)
   else if ts2.cur == some "CHARACTERS" || ts2.cur == some "DATA" then
-    if cfg.excludeChars then .ok ({ c2 with ts := consumeToEndOfBlock ts2 ts2.cur }, acc)
+    if fl.excludeChars then .ok ({ c2 with ts := consumeToEndOfBlock ts2 ts2.cur }, acc)
     else .ok ({ c2 with ts := parsedBlockSkeleton ts2 }, acc)
-  else if ts2.cur == some "TREES" then treesBlockR cfg S c2 acc
+  else if ts2.cur == some "TREES" then treesBlockR cfg fl S c2 acc
   else if isSetsKw ts2.cur then
-    if cfg.excludeChars then .ok (c2, acc) else .ok ({ c2 with ts := parsedBlockSkeleton ts2 }, acc)
+    if fl.excludeChars then .ok (c2, acc) else .ok ({ c2 with ts := parsedBlockSkeleton ts2 }, acc)
   else if ts2.cur == some "BEGIN" then .error .parse
   else .ok ({ c2 with ts := consumeToEndOfBlock ts2 ts2.cur }, acc)
 
 /-- `NexusReader._parse_nexus_stream`: the `while not eof` loop -/
-def streamLoopR {σ} (cfg : Cfg) (S : Sink σ) (c : Core) (acc : σ) : Except Err (Core × σ) :=
+def streamLoopR {σ} (cfg : Cfg) (fl : Flags) (S : Sink σ) (c : Core) (acc : σ) : Except Err (Core × σ) :=
   if c.ts.eof then .ok (c, acc)
   else
-    match streamStepR cfg S c acc with
+    match streamStepR cfg fl S c acc with
     | .error e => .error e
     | .ok (c3, acc3) =>
-      if h : c3.ts.rest.length < c.ts.rest.length then streamLoopR cfg S c3 acc3
+      if h : c3.ts.rest.length < c.ts.rest.length then streamLoopR cfg fl S c3 acc3
       else if c3.ts.eof then .ok (c3, acc3)
       else .error .stuck
 termination_by c.ts.rest.length
 
 /-- `_parse_nexus_stream` -/
-def nexusRead {σ} (cfg : Cfg) (S : Sink σ) (c : Core) (acc : σ) : Except Err (Core × σ) :=
+def nexusRead {σ} (cfg : Cfg) (fl : Flags) (S : Sink σ) (c : Core) (acc : σ) : Except Err (Core × σ) :=
   let ts1 := c.ts.next
   if ts1.cur.map String.toUpper != some "#NEXUS" then .error .parse
-  else streamLoopR cfg S { c with ts := ts1 } acc
+  else streamLoopR cfg fl S { c with ts := ts1 } acc
 
 /-! ### NEXUS yielder front end (`NexusTreeDataYielder`): a second copy of both loops -/
 
-def treeRunY (cfg : Cfg) (c : Core) (mp : Mapper) (out : List Tree) : Except Err (Core × Mapper × List Tree × Option String) :=
-  match nexusTreeStmt cfg c mp with
+def treeRunY (cfg : Cfg) (d : Doc) (mp : Mapper) (out : List Tree) : Except Err (Doc × Mapper × List Tree × Option String) :=
+  match nexusTreeStmt cfg d mp with
   | .error e => .error e
-  | .ok (t, c1, mp1) =>
+  | .ok (t, d1, mp1) =>
     let out1 := out ++ [t]
-    if c1.ts.eof || c1.ts.cur == none || c1.ts.cur == some "" then .ok (c1, mp1, out1, some "TREE")
+    if d1.ts.eof || d1.ts.cur == none || d1.ts.cur == some "" then .ok (d1, mp1, out1, some "TREE")
     else
-      let c2 := { c1 with ts := c1.ts.castU }
-      if c2.ts.cur != some "TREE" then .ok (c2, mp1, out1, c2.ts.cur)
-      else if h : c2.ts.rest.length < c.ts.rest.length then treeRunY cfg c2 mp1 out1
+      let d2 : Doc := { d1 with ts := d1.ts.castU }
+      if d2.ts.cur != some "TREE" then .ok (d2, mp1, out1, d2.ts.cur)
+      else if h : d2.ts.rest.length < d.ts.rest.length then treeRunY cfg d2 mp1 out1
       else .error .stuck
-termination_by c.ts.rest.length
+termination_by d.ts.rest.length
 
 /-- one turn of the `while` loop of `NexusTreeDataYielder._yield_from_trees_block` (its own copy of the dispatch) -/
-def treesStepY (cfg : Cfg) (c : Core) (v : BlockVars) (out : List Tree) : Except Err (Core × BlockVars × List Tree) :=
+def treesStepY (cfg : Cfg) (fl : Flags) (c : Core) (v : BlockVars) (out : List Tree) : Except Err (Core × BlockVars × List Tree) :=
   let ts1 := c.ts.nextU
   let c1 := { c with ts := ts1 }
   if ts1.cur == some "LINK" then
@@ -833,67 +866,67 @@ def treesStepY (cfg : Cfg) (c : Core) (v : BlockVars) (out : List Tree) : Except
     | .error e => .error e
     | .ok (_, ts2) => .ok ({ c1 with ts := ts2 }, { v with tok := some "" }, out)
   else if ts1.cur == some "TRANSLATE" then
-    match (if v.haveNs then .ok c1 else getNamespace cfg c1 v.link) with
+    match (if v.haveNs then .ok c1 else getNamespace fl c1 v.link) with
     | .error e => .error e
     | .ok c2 =>
       match parseTranslate c2 v.mapper with
       | .error e => .error e
       | .ok (c3, mp) => .ok (c3, { v with haveNs := true, mapper := some mp, tok := some "" }, out)
   else if ts1.cur == some "TREE" then
-    match (if v.haveNs then .ok c1 else getNamespace cfg c1 v.link) with
+    match (if v.haveNs then .ok c1 else getNamespace fl c1 v.link) with
     | .error e => .error e
     | .ok c2 =>
-      let mp := match v.mapper with | some m => m | none => Mapper.new c2.ns true
-      let c3 := { c2 with ts := c2.ts.clear }     -- pre-tree comments are pulled and dropped
-      match treeRunY cfg c3 mp out with
+      let mp := mapperOr v.mapper c2.ns
+      -- (`.clear`: pre-tree comments are pulled and dropped)
+      match treeRunY cfg { ts := c2.ts.clear, ns := c2.ns } mp out with
       | .error e => .error e
-      | .ok (c4, mp4, out4, tok) => .ok (c4, { v with haveNs := true, mapper := some mp4, haveList := true, tok := tok }, out4)
+      | .ok (d4, mp4, out4, tok) => .ok (c2.withDoc d4, { v with haveNs := true, mapper := some mp4, haveList := true, tok := tok }, out4)
   else if ts1.cur == some "BEGIN" then .error .parse
   else .ok (c1, { v with tok := ts1.cur }, out)
 
 /-- the `while` loop of `NexusTreeDataYielder._yield_from_trees_block` -/
-def treesLoopY (cfg : Cfg) (c : Core) (v : BlockVars) (out : List Tree) : Except Err (Core × List Tree) :=
+def treesLoopY (cfg : Cfg) (fl : Flags) (c : Core) (v : BlockVars) (out : List Tree) : Except Err (Core × List Tree) :=
   if c.ts.eof || v.tok == none || v.tok == some "END" || v.tok == some "ENDBLOCK" then
     .ok ({ c with ts := skipSemi c.ts }, out)
   else
-    match treesStepY cfg c v out with
+    match treesStepY cfg fl c v out with
     | .error e => .error e
     | .ok (c5, v5, out5) =>
-      if h : c5.ts.rest.length < c.ts.rest.length then treesLoopY cfg c5 v5 out5
+      if h : c5.ts.rest.length < c.ts.rest.length then treesLoopY cfg fl c5 v5 out5
       else if c5.ts.eof then .ok ({ c5 with ts := skipSemi c5.ts }, out5)
       else .error .stuck
 termination_by c.ts.rest.length
 
-def treesBlockY (cfg : Cfg) (c : Core) (out : List Tree) : Except Err (Core × List Tree) :=
+def treesBlockY (cfg : Cfg) (fl : Flags) (c : Core) (out : List Tree) : Except Err (Core × List Tree) :=
   let ts0 := c.ts.castU
   if ts0.cur != some "TREES" then .error .parse
-  else treesLoopY cfg { c with ts := skipSemi ts0 } { tok := some "TREES" } out
+  else treesLoopY cfg fl { c with ts := skipSemi ts0 } { tok := some "TREES" } out
 
 /-- one turn of the block loop of `NexusTreeDataYielder._yield_items_from_stream`: TAXA, TREES, anything else is
     skipped as an unknown block -/
-def streamStepY (cfg : Cfg) (c : Core) (out : List Tree) : Except Err (Core × List Tree) :=
+def streamStepY (cfg : Cfg) (fl : Flags) (c : Core) (out : List Tree) : Except Err (Core × List Tree) :=
   let ts2 := (seekBegin c.ts.nextU).clear.nextU
   let c2 := { c with ts := ts2 }
-  if ts2.cur == some "TAXA" then (parseTaxaBlock cfg c2).map (·, out)
-  else if ts2.cur == some "TREES" then treesBlockY cfg c2 out
+  if ts2.cur == some "TAXA" then (parseTaxaBlock fl c2).map (·, out)
+  else if ts2.cur == some "TREES" then treesBlockY cfg fl c2 out
   else if ts2.cur == some "BEGIN" then .error .parse
   else .ok ({ c2 with ts := consumeToEndOfBlock ts2 ts2.cur }, out)
 
-def streamLoopY (cfg : Cfg) (c : Core) (out : List Tree) : Except Err (Core × List Tree) :=
+def streamLoopY (cfg : Cfg) (fl : Flags) (c : Core) (out : List Tree) : Except Err (Core × List Tree) :=
   if c.ts.eof then .ok (c, out)
   else
-    match streamStepY cfg c out with
+    match streamStepY cfg fl c out with
     | .error e => .error e
     | .ok (c3, out3) =>
-      if h : c3.ts.rest.length < c.ts.rest.length then streamLoopY cfg c3 out3
+      if h : c3.ts.rest.length < c.ts.rest.length then streamLoopY cfg fl c3 out3
       else if c3.ts.eof then .ok (c3, out3)
       else .error .stuck
 termination_by c.ts.rest.length
 
-def nexusYield (cfg : Cfg) (c : Core) (out : List Tree) : Except Err (Core × List Tree) :=
+def nexusYield (cfg : Cfg) (fl : Flags) (c : Core) (out : List Tree) : Except Err (Core × List Tree) :=
   let ts1 := c.ts.next
   if ts1.cur.map String.toUpper != some "#NEXUS" then .error .parse
-  else streamLoopY cfg { c with ts := ts1 } out
+  else streamLoopY cfg fl { c with ts := ts1 } out
 
 /-! ### the routes of the data model -/
 
@@ -911,18 +944,18 @@ def coreOf (toks : List Tok) (tail : List String) (ns : NSObj) : Core :=
   { ts := { rest := toks, tail := tail }, ns := ns.labels, nsLabel := ns.title }
 
 /-- `reader.read_tree_lists` with the given tree-list factory -/
-def readWith {σ} (sch : Schema) (cfg : Cfg) (S : Sink σ) (toks : List Tok) (tail : List String) (ns : NSObj) (acc : σ) :
+def readWith {σ} (sch : Schema) (cfg : Cfg) (fl : Flags) (S : Sink σ) (toks : List Tok) (tail : List String) (ns : NSObj) (acc : σ) :
     Except Err (σ × NSObj) :=
   match sch with
   | .newick =>
     (newickRead cfg S { rest := toks, tail := tail } ns.labels acc).map fun r => (r.1, { ns with labels := r.2 })
   | .nexus =>
-    (nexusRead cfg S (coreOf toks tail ns) acc).map fun r => (r.2, { labels := r.1.ns, title := r.1.nsLabel })
+    (nexusRead cfg fl S (coreOf toks tail ns) acc).map fun r => (r.2, { labels := r.1.ns, title := r.1.nsLabel })
 
 /-- the tree lists of the source, one per collection: `tree_list_factory = TreeList` -/
-def readBlocks (sch : Schema) (cfg : Cfg) (toks : List Tok) (tail : List String) (ns : NSObj) :
+def readBlocks (sch : Schema) (cfg : Cfg) (fl : Flags) (toks : List Tok) (tail : List String) (ns : NSObj) :
     Except Err (List (List Tree) × NSObj) :=
-  readWith sch cfg freshSink toks tail ns []
+  readWith sch cfg fl freshSink toks tail ns []
 
 /-- Python `l[i]` -/
 def pyIdx {α} (l : List α) (i : Int) : Option α :=
@@ -934,9 +967,9 @@ def pySuffix {α} (l : List α) (i : Int) : List α :=
 
 /-- `Tree._parse_and_create_from_stream` (= `Tree.get`).  `label` is the caller's `label=` argument;
     REPAIRED behaviour: the tree keeps the name given by the source unless a label is passed. -/
-def treeGet (sch : Schema) (cfg : Cfg) (toks : List Tok) (tail : List String) (ns : NSObj)
+def treeGet (sch : Schema) (cfg : Cfg) (fl : Flags) (toks : List Tok) (tail : List String) (ns : NSObj)
     (coll tree : Option Int) (label : Option String) : Except Err (Tree × NSObj) :=
-  match readBlocks sch cfg toks tail ns with
+  match readBlocks sch cfg fl toks tail ns with
   | .error e => .error e
   | .ok (bs, ns') =>
     if bs.isEmpty then .error .value
@@ -950,15 +983,15 @@ def treeGet (sch : Schema) (cfg : Cfg) (toks : List Tok) (tail : List String) (n
 
 /-- `TreeList._parse_and_create_from_stream` into the list `existing` (`TreeList.get`: `existing = []`;
     `TreeList.read`: the current content) -/
-def listGet (sch : Schema) (cfg : Cfg) (toks : List Tok) (tail : List String) (ns : NSObj) (existing : List Tree)
+def listGet (sch : Schema) (cfg : Cfg) (fl : Flags) (toks : List Tok) (tail : List String) (ns : NSObj) (existing : List Tree)
     (coll tree : Option Int) : Except Err (List Tree × NSObj) :=
   let coll := match coll, tree with
     | none, some _ => some 0
     | c, _ => c
   match coll with
-  | none => readWith sch cfg pseudoSink toks tail ns existing
+  | none => readWith sch cfg fl pseudoSink toks tail ns existing
   | some c =>
-    match readBlocks sch cfg toks tail ns with
+    match readBlocks sch cfg fl toks tail ns with
     | .error e => .error e
     | .ok (bs, ns') =>
       if c ≥ bs.length then .error .index
@@ -970,17 +1003,17 @@ def listGet (sch : Schema) (cfg : Cfg) (toks : List Tok) (tail : List String) (n
           | some k => if k ≥ b.length then .error .index else .ok (existing ++ pySuffix b k, ns')
 
 /-- `Tree.yield_from_files([source])` -/
-def yieldFrom (sch : Schema) (cfg : Cfg) (toks : List Tok) (tail : List String) (ns : NSObj) :
+def yieldFrom (sch : Schema) (cfg : Cfg) (fl : Flags) (toks : List Tok) (tail : List String) (ns : NSObj) :
     Except Err (List Tree × NSObj) :=
   match sch with
   | .newick => (newickYield cfg { rest := toks, tail := tail } ns.labels).map fun r => (r.1, { ns with labels := r.2 })
   | .nexus =>
-    (nexusYield { cfg with attached := true } (coreOf toks tail ns) []).map fun r => (r.2, { labels := r.1.ns, title := r.1.nsLabel })
+    (nexusYield cfg { fl with attached := true } (coreOf toks tail ns) []).map fun r => (r.2, { labels := r.1.ns, title := r.1.nsLabel })
 
 /-- `DataSet.get` / `DataSet.read`: tree lists are appended to `dataset.tree_lists`
     (`tree_list_factory = dataset.new_tree_list`); character blocks are parsed, not skipped -/
-def datasetRead (sch : Schema) (cfg : Cfg) (toks : List Tok) (tail : List String) (ns : NSObj) (existing : List (List Tree)) :
+def datasetRead (sch : Schema) (cfg : Cfg) (fl : Flags) (toks : List Tok) (tail : List String) (ns : NSObj) (existing : List (List Tree)) :
     Except Err (List (List Tree) × NSObj) :=
-  readWith sch { cfg with excludeChars := false } freshSink toks tail ns existing
+  readWith sch cfg { fl with excludeChars := false } freshSink toks tail ns existing
 
 end DendroModel.C13
